@@ -352,8 +352,14 @@ def r14b(ctx, f, specs, groups):
                 asg = parent(look)
                 var = asg.targets[0].id if isinstance(asg, ast.Assign) and isinstance(asg.targets[0], ast.Name) else None
                 brk = [b for b in lp.body if isinstance(b, ast.If) and any(isinstance(z, ast.Break) for z in b.body)]
-                ok_break = any(var and var in ast.unparse(b.test) and "is not None" in ast.unparse(b.test) for b in brk)
-                if not ok_break:
+                ok_break = any(var and ast.unparse(b.test).replace(" ", "") == f"{var}isnotNone" for b in brk)
+                other_side = "to" if side == "from" else "from"
+                mixed = [b for b in brk if any(isinstance(x, ast.Name) and role_of_name(x.id) == other_side for x in ast.walk(b.test))]
+                if mixed:
+                    problems.append(f"the lookup loop stops on a condition that also involves the {other_side} file's type "
+                                    f"(`{norm(mixed[0].test, 60)}`): once one side is resolved the other side's --{side}-TYPE flag "
+                                    f"is never read")
+                elif not ok_break:
                     problems.append("the lookup loop does not stop at the first option that is set")
         if problems:
             ctx.violation("R14b", f.file, "main", s.node, f"--{side}-TYPE == --{side}-mime",
